@@ -117,9 +117,20 @@ func c14Run(ctx *core.Ctx, msize uint32, dotu bool, thorough bool) core.Result {
 			res.Inconclusive = err.Error()
 			return res
 		}
-		f, err := c.FOpen(name, go9p.OREAD)
+		openName := name
+		if li%2 == 1 {
+			// every second file is reached through a symbolic link in the tree (an open follows it)
+			openName = "alias-" + name
+			_ = os.Remove(filepath.Join(e.root, openName))
+			if os.Symlink(name, filepath.Join(e.root, openName)) != nil {
+				openName = name
+			} else {
+				res.Count("files_read_through_a_symlink", 1)
+			}
+		}
+		f, err := c.FOpen(openName, go9p.OREAD)
 		if err != nil {
-			fail("open-failed", fmt.Sprintf("FOpen(%s): %v", name, err), nil)
+			fail("open-failed", fmt.Sprintf("FOpen(%s): %v", openName, err), nil)
 			continue
 		}
 		lc := lenClass(n, iou)
@@ -286,9 +297,19 @@ func c14Run(ctx *core.Ctx, msize uint32, dotu bool, thorough bool) core.Result {
 			res.Inconclusive = err.Error()
 			return res
 		}
-		wf, err := c.FOpen(wname, go9p.ORDWR)
+		wopen := wname
+		if li%2 == 0 && li > 0 {
+			wopen = "walias-" + wname
+			_ = os.Remove(filepath.Join(e.root, wopen))
+			if os.Symlink(wname, filepath.Join(e.root, wopen)) != nil {
+				wopen = wname
+			} else {
+				res.Count("files_written_through_a_symlink", 1)
+			}
+		}
+		wf, err := c.FOpen(wopen, go9p.ORDWR)
 		if err != nil {
-			fail("open-failed", fmt.Sprintf("FOpen(%s, ORDWR): %v", wname, err), nil)
+			fail("open-failed", fmt.Sprintf("FOpen(%s, ORDWR): %v", wopen, err), nil)
 			continue
 		}
 		apply := func(off int, data []byte) {
